@@ -108,7 +108,11 @@ func classify(s *pScript, limitMs int) pClass {
 	case "raw":
 		out, _ = base64.StdEncoding.DecodeString(s.Raw)
 	}
-	dec, err := plugin.UnmarshalResponse(out)
+	var dec *plugin.Response
+	var err error
+	if p, _ := guard(func() { dec, err = plugin.UnmarshalResponse(out) }); p {
+		err = fmt.Errorf("UnmarshalResponse panicked") // undecodable all the same: thriftgo must fail
+	}
 	c.decoded = err == nil
 	if c.decoded {
 		c.nwarn, c.ncontent = len(dec.Warnings), len(dec.Contents)
@@ -310,13 +314,27 @@ func (h *harness) checkScenario(sc *scenario) {
 		panic(fmt.Sprintf("cannot run thriftgo: %v", err))
 	}
 	defer os.RemoveAll(filepath.Join(h.work, dir))
+	failed := false
+	type mcase struct{ op, impl string }
+	var cases []mcase
+	defer func() {
+		// the decision model has no outcome for a run the oracle already reports (e.g. a panic inside
+		// thriftgo): such executions are carried by the oracle failure alone
+		if !failed {
+			for _, c := range cases {
+				h.out.Case(c.op, c.impl, true)
+			}
+		}
+	}()
 	fail := func(what string, expected, observed interface{}) {
+		failed = true
 		js, _ := json.Marshal(sc)
 		h.out.Fail(vl.OracleFail{Key: keyOf("process", sc.Label+" "+what), What: "process level (runtime-observed): " + what,
 			Input: map[string]interface{}{"kind": "process", "scenario": json.RawMessage(js)}, Expected: expected, Observed: observed})
 	}
 	if strings.Contains(obs.stderr, "Recovered from panic") || strings.Contains(obs.stderr, "goroutine ") {
-		fail("thriftgo panicked", "no panic", tail(obs.stderr, 600))
+		fail("thriftgo panicked", "no panic, non-zero exit status on a plugin fault", fmt.Sprintf("exit %d; %s", obs.exit, panicLine(obs.stderr)))
+		return
 	}
 	anyFault := false
 	ran := 0
@@ -352,7 +370,7 @@ func (h *harness) checkScenario(sc *scenario) {
 				impl = fmt.Sprintf("ok ? %d", shown)
 				fail("plugin fault ("+describe(cl)+") but thriftgo exited 0", "non-zero exit status", fmt.Sprintf("exit 0; stderr: %s", tail(obs.stderr, 400)))
 			}
-			h.out.Case(op, impl, true)
+			cases = append(cases, mcase{op, impl})
 			// nothing of the failed run may be written
 			for n := range exp {
 				if _, err := os.Stat(filepath.Join(obs.outDir, n)); err == nil {
@@ -389,7 +407,7 @@ func (h *harness) checkScenario(sc *scenario) {
 				impl = fmt.Sprintf("fail %d", shown)
 				fail("faultless plugin run but thriftgo exited non-zero", "exit 0", fmt.Sprintf("exit %d; stderr: %s", obs.exit, tail(obs.stderr, 400)))
 			}
-			h.out.Case(op, impl, true)
+			cases = append(cases, mcase{op, impl})
 			want := cl.nwarn
 			if cl.stderr {
 				want++
@@ -452,6 +470,23 @@ func describe(c pClass) string {
 	return "none"
 }
 
+// panicLine: the panic value and the first frames inside the repository (no addresses).
+func panicLine(s string) string {
+	var out []string
+	lines := strings.Split(s, "\n")
+	for i, l := range lines {
+		if strings.HasPrefix(l, "Recovered from panic") && i+1 < len(lines) {
+			out = append(out, "panic: "+lines[i+1])
+		}
+		if strings.HasPrefix(l, "github.com/cloudwego/") && len(out) < 6 {
+			if j := strings.Index(l, "("); j > 0 {
+				out = append(out, l[:j])
+			}
+		}
+	}
+	return strings.Join(out, " <- ")
+}
+
 func tail(s string, n int) string {
 	if len(s) > n {
 		return "…" + s[len(s)-n:]
@@ -493,6 +528,10 @@ func (h *harness) catalogue() []*scenario {
 	add("partial-stdout", func(s *scenario) { s.Plugins = one(pScript{Mode: "partial", Keep: 9, Files: okFiles("p0")}) })
 	add("invalid-bytes", func(s *scenario) {
 		s.Plugins = one(pScript{Mode: "raw", Raw: base64.StdEncoding.EncodeToString([]byte("this is not thrift"))})
+	})
+	// DEFECT PROBE: a first byte >= 0x80 is a negative TType for the fast codec's Skip
+	add("invalid-bytes-negative-ttype", func(s *scenario) {
+		s.Plugins = one(pScript{Mode: "raw", Raw: base64.StdEncoding.EncodeToString([]byte{0x80, 0x00, 0x01, 0x00})})
 	})
 	add("empty-stdout", func(s *scenario) { s.Plugins = one(pScript{Mode: "raw", Raw: ""}) })
 	add("response-error", func(s *scenario) {
@@ -571,6 +610,7 @@ func (h *harness) randomScenario(i int) *scenario {
 			for j := range raw {
 				raw[j] = byte(r.Intn(256))
 			}
+			raw[0] &= 0x7f // negative TTypes have their own catalogue scenario (stable key)
 			sc = pScript{Mode: "raw", Raw: base64.StdEncoding.EncodeToString(raw)}
 		case 3:
 			sc = pScript{Error: sp(r.Pick([]string{"e", "multi\nline error", "ü"})), Warnings: []string{"C11W-" + id + "-w"}}
